@@ -478,10 +478,17 @@ def handler_traces(r, tier: str) -> List[dict]:
             out.append({"thr": 2048, "clean": 1, "msgs": layout, "ev": ev,
                         "text": f"[server connection {name} of two interleaved connections] " + b"".join(msgs_x).decode("latin1")})
     nstreams = 12 if tier == "quick" else 120
-    for si in range(nstreams):
-        kind = ["client", "blob", "server"][si % 3]
+    for si in range(nstreams + 2):
+        kind = ["client", "blob", "server"][si % 3] if si < nstreams else "blob"
         msgs_b: List[bytes] = []
-        for _ in range(r.randint(1, 4)):
+        if si >= nstreams:
+            # a message far longer than any read or stream-buffer size (a long run of characters without a tag end), between two
+            # short ones, on the connection whose junk-recovery threshold is disabled
+            big = "y" * r.choice([66000, 70001, 140000])
+            for val in ("before", big, "after"):
+                o = M.SetTextVector(device="D", name="BIG", state="Ok", children=[one_parts.OneText(name="e", value=val)])
+                msgs_b.append(spell(o.to_xml(), 0).encode("latin1"))
+        for _ in range(r.randint(1, 4) if si < nstreams else 0):
             t = r.choice(texts)
             if kind == "server":
                 o = M.NewTextVector(device=t, name="N", children=[one_parts.OneText(name="e", value=t + str(r.randint(0, 99)))])
@@ -502,14 +509,14 @@ def handler_traces(r, tier: str) -> List[dict]:
             layout.append({"id": j + 1, "first": pos + 1, "last": pos + len(body)})
             pos += len(b)
         n = len(stream)
-        plans = [[1] * n, [7] * (n // 7 + 1), [n]]
-        for _ in range(6 if tier == "quick" else 25):
+        plans = [[1] * n, [7] * (n // 7 + 1), [n]] if si < nstreams else [[1024] * (n // 1024 + 1), [n], [4096] * (n // 4096 + 1), [65536, n]]
+        for _ in range((6 if tier == "quick" else 25) if si < nstreams else 1):
             k = r.randint(1, 10)
             cuts = sorted(r.sample(range(1, n), min(k, n - 1)))
             plans.append([b - a for a, b in zip([0] + cuts, cuts + [n])])
         # cuts inside every multi-byte character
         inside = [i for i in range(1, n) if stream[i] & 0xC0 == 0x80]
-        for i in inside[: (8 if tier == "quick" else 60)]:
+        for i in inside[: ((8 if tier == "quick" else 60) if si < nstreams else 0)]:
             plans.append([i, n - i])
         for plan in plans:
             chunks = []
